@@ -17,7 +17,9 @@ UNSAT, SAT, UNKNOWN = "unsat", "sat", "unknown"
 # core were reported as not proved).  z3 has no CPU-time limit of its own and its resource counter does not advance in some of its
 # loops, so a watchdog thread interrupts the context when the process has used its budget; the wall-clock limit (WALL_FACTOR x the
 # budget) is only a safety net.
-WALL_FACTOR = 30
+WALL_FACTOR = 100
+STAGES = []      # diagnostics of the obligation being discharged: (stage, answer, reason, CPU seconds, wall seconds)
+OVERLOAD = [False]   # an attempt was ended by the wall-clock safety net instead of its CPU budget: the machine is overloaded
 SCALE = float(os.environ.get("VERIF_BUDGET_SCALE", "1") or 1)    # < 1 emulates a slower machine (margin test: tools/refresh.sh --margin)
 
 
@@ -38,11 +40,24 @@ def cpu_check(s, budget_ms):
 
     th = threading.Thread(target=watch, daemon=True)
     th.start()
+    w0 = time.time()
+    r = None
     try:
-        return s.check()
+        r = s.check()
+        return r
     finally:
         done.set()
         th.join()
+        cpu = time.process_time() - c0
+        reason = ""
+        if r is not None and r == z3.unknown:
+            try:
+                reason = s.reason_unknown()
+            except Exception:  # pragma: no cover
+                reason = "?"
+            if cpu * 1000 < 0.5 * budget_ms and "timeout" in reason:
+                OVERLOAD[0] = True
+        STAGES.append((f"z3-5.1 budget {budget_ms / 1000:.1f}s", str(r), reason, round(cpu, 2), round(time.time() - w0, 2)))
 
 
 def _check(formulas, timeout_ms, logic=None, rlimit=None, seed=None, mbqi=True):
@@ -155,8 +170,11 @@ def external(smt2, tool, timeout_s):
             out = subprocess.run(cmd, capture_output=True, text=True, timeout=timeout_s * WALL_FACTOR + 5,
                                  preexec_fn=_cpu_limit(max(1, timeout_s * SCALE))).stdout.strip()
         except subprocess.TimeoutExpired:
+            OVERLOAD[0] = True
+            STAGES.append((f"{tool} budget {timeout_s}s cpu", "wall-clock safety net", "", None, None))
             return UNKNOWN
         first = out.splitlines()[0].strip() if out else ""
+        STAGES.append((f"{tool} budget {timeout_s}s cpu", first or "no answer", "", None, None))
         if first in (UNSAT, SAT):
             return first
         return UNKNOWN
@@ -167,6 +185,8 @@ def external(smt2, tool, timeout_s):
 def discharge(ob, timeout_s=10, second_solver=False):
     """sets ob.status / backend / time / model"""
     t0 = time.time()
+    del STAGES[:]
+    OVERLOAD[0] = False
     if ob.expect_sat:
         # vacuity guard: only a *refuted* precondition (unsat) is a problem; unknown is accepted
         qf = [h for h in ob.hyps if not is_quantified(h)]
@@ -254,9 +274,14 @@ def discharge(ob, timeout_s=10, second_solver=False):
     if st == UNSAT and second_solver:
         r = external(solver.to_smt2(), "cvc5", timeout_s)
         ob.second = r
+    if st == "candidate" and OVERLOAD[0]:
+        # an attempt was cut by the wall-clock safety net, i.e. the machine gave this process (almost) no CPU: no verdict
+        st = UNKNOWN
+        ob.backend = "undecided: attempts were ended by the wall-clock safety net (overloaded machine), not by their CPU budgets"
     ob.status = st
     ob.model = model
     ob.time = time.time() - t0
+    ob.stages = list(STAGES) if st != UNSAT else []
     return ob
 
 
